@@ -88,7 +88,19 @@ func runC20(c *Ctx) {
 								// a statement on a table that does not exist: the metadata lookup fails
 								db.ExecContext(ctx, fmt.Sprintf("UPDATE nosuch_%d_%d SET n = 1 WHERE id = 1", g, k))
 							}
-							if _, e := db.ExecContext(ctx, "UPDATE "+table+" SET n = n + 1 WHERE id = ?", g*2+k%2); e != nil {
+							q := "UPDATE " + table + " SET n = n + 1 WHERE id = ?"
+							if k%3 == 1 {
+								// as a prepared statement
+								ps, e := db.PrepareContext(ctx, q)
+								if e != nil {
+									return e
+								}
+								_, e = ps.ExecContext(ctx, g*2+k%2)
+								ps.Close()
+								if e != nil {
+									return e
+								}
+							} else if _, e := db.ExecContext(ctx, q, g*2+k%2); e != nil {
 								return e
 							}
 							if !commit {
